@@ -264,7 +264,7 @@ def rand_spec(rng, depth, sids, last=True, nest=0, inref=False):
     if depth <= 0 or r < 0.22:
         return rand_path(rng)
     if r < 0.34:
-        return {'op': 'probe', 'f': rng.choice(['id', 'id', 'inc', 'inc', 'boom']), 'r': False}
+        return {'op': 'probe', 'f': rng.choice(['id', 'id', 'id', 'inc', 'inc', 'inc', 'boom', 'boomA', 'boomB']), 'r': False}
     if r < 0.40:
         return {'op': 'read', 'name': rng.choice(B.NAME_ORDER)}
     if r < 0.54:
@@ -286,6 +286,8 @@ def rand_spec(rng, depth, sids, last=True, nest=0, inref=False):
         return {'op': 'bind', 'name': rng.choice(B.NAME_ORDER), 'c': rand_spec(rng, depth - 1, sids, nest=nest, inref=inref)}
     if r < 0.895:
         return {'op': 'acc', 'kind': 'fold', 'f': rng.choice(['id', 'inc', 'inc', 'boom'])}
+    if r < 0.897:
+        return {'op': 'scopelit'}
     if r < 0.9:
         return {'op': 'tplus', 'v': {'k': 'list', 'v': [{'k': 'int', 'i': rng.randint(0, 9)}]}}
     if r < 0.905:
@@ -293,7 +295,7 @@ def rand_spec(rng, depth, sids, last=True, nest=0, inref=False):
     if r < 0.91 and not inref:
         return {'op': 'refdef', 'name': rng.choice(['n', 'm']), 'c': rand_spec(rng, depth - 1, sids, nest=nest, inref=True)}
     if r < 0.915:
-        return {'op': 'lastvar', 'init': rng.randint(0, 3)}
+        return {'op': 'lastvar', 'init': rng.randint(0, 3), 'y': rng.random() < 0.5}
     if r < 0.93:
         return {'op': 'invoke', 'c': rng.choice([{'op': 'path', 'text': 'opts', 'segs': ['opts']}, rand_path(rng)]),
                 'k': rng.choice(['k', 'a', 'z']), 'v': {'k': 'int', 'i': rng.randint(0, 9)}}
@@ -530,8 +532,10 @@ def main(tier, seed):
 
 def _main(check, tier, seed):
     configs = {'quick': [dict(PoolFrom=1, PoolSize=10, MaxHist=3, MaxToggles=1, MaxRegs=1),
-                         dict(PoolFrom=11, PoolSize=4, MaxHist=3, MaxToggles=1, MaxRegs=1)],
-               'thorough': [dict(PoolFrom=1, PoolSize=20, MaxHist=3, MaxToggles=2, MaxRegs=1),
+                         dict(PoolFrom=11, PoolSize=4, MaxHist=3, MaxToggles=1, MaxRegs=1),
+                         dict(PoolFrom=15, PoolSize=6, MaxHist=3, MaxToggles=1, MaxRegs=1)],
+               'thorough': [dict(PoolFrom=1, PoolSize=14, MaxHist=3, MaxToggles=2, MaxRegs=1),
+                            dict(PoolFrom=11, PoolSize=16, MaxHist=3, MaxToggles=1, MaxRegs=1),
                             dict(PoolFrom=1, PoolSize=9, MaxHist=4, MaxToggles=1, MaxRegs=1)]}[tier]
     rows, drift, results = [], [], []
     for consts in configs:
@@ -573,7 +577,7 @@ def _main(check, tier, seed):
     check.extra['mechanism_drift'] = drift[:5]
     check.extra['mechanism_drift_count'] = len(drift)
     # vacuity: the same histories at the finest grain; every step kind and branch must occur
-    vres = vlib.run_tlc('MC_C06', cfg='MC_C06_fine', constants=dict(PoolFrom=1, PoolSize=20, MaxHist=2, MaxToggles=2, MaxRegs=2, Mutant='""'), heap='6g')
+    vres = vlib.run_tlc('MC_C06', cfg='MC_C06_fine', constants=dict(PoolFrom=1, PoolSize=26, MaxHist=2, MaxToggles=2, MaxRegs=2, Mutant='""'), heap='6g')
     vlib.tlc_must_pass(vres, 'MC_C06 fine-grained')
     check.add_tlc(vres, 'MC_C06 fine-grained (vacuity)')
     cov = B.mechanism_coverage([j['hist'] for j in vres['json'] if 'hist' in j])
@@ -594,11 +598,11 @@ def _main(check, tier, seed):
         # spec mutants: the law must be violated
         mres = {}
         for m, law in MUTANTS.items():
-            r = vlib.run_tlc('MC_C06', cfg='MC_C06_mutant', constants=dict(PoolFrom=1, PoolSize=20, MaxHist=3, MaxToggles=2, MaxRegs=2, Mutant='"%s"' % m))
+            r = vlib.run_tlc('MC_C06', cfg='MC_C06_mutant', constants=dict(PoolFrom=11, PoolSize=16, MaxHist=3, MaxToggles=2, MaxRegs=2, Mutant='"%s"' % m))
             mres[m] = r['violated']
             if r['violated'] != law:
                 raise vlib.MachineryError('spec mutant %s: expected %s violated, TLC says %s' % (m, law, r['violated']))
-        r = vlib.run_tlc('MC_C06', cfg='MC_C06_mutant_frame', constants=dict(PoolFrom=1, PoolSize=20, MaxHist=3, MaxToggles=2, MaxRegs=2, Mutant='"acconspec"'))
+        r = vlib.run_tlc('MC_C06', cfg='MC_C06_mutant_frame', constants=dict(PoolFrom=11, PoolSize=16, MaxHist=3, MaxToggles=2, MaxRegs=2, Mutant='"acconspec"'))
         mres['acconspec/frame'] = r['violated']
         if r['violated'] != 'FrameCondition':
             raise vlib.MachineryError('spec mutant acconspec: FrameCondition not violated (%s)' % r['violated'])
